@@ -10,7 +10,7 @@ MPI_INC = ["/usr/lib/x86_64-linux-gnu/openmpi/include", "/usr/lib/x86_64-linux-g
 MPI_LIBS = ("-lboost_mpi", "-lboost_serialization", "-lboost_timer", "-ltbb", "-lpthread", "-L/usr/lib/x86_64-linux-gnu/openmpi/lib", "-lmpi_cxx", "-lmpi")
 RULE = ("every labelled graph of G(n) x weighting x each of the 5 MPI entry points x communicator size P: P rank threads with private graph copies run the unmodified code on the "
         "vmpi shim under a baton scheduler; explorer choices = per-rank heap layout of the edge nodes (pointer order; ORDER), nested TBB schedule (ORDER), result of every reduce "
-        "over all combination orders/parenthesisations (OUTCOME, always complete); deadlock = no runnable rank and not all ranks in the same collective. Oracle: all ranks return, "
+        "over all combination orders/parenthesisations (OUTCOME; complete unless a bound on non-default outcomes is stated for the run); deadlock = no runnable rank and not all ranks in the same collective. Oracle: all ranks return, "
         "rank 0 output passes the C01/C02 oracles, other ranks emit nothing. states = choice-tree nodes, transitions = choices executed, evaluations = complete executions")
 
 
@@ -64,16 +64,24 @@ def run(tier):
     if tier == "quick":
         plan = [("G(0..3) x A2, P in {1,2,3}, layouts {id,rev}, bound 1", [["--n", n, "--alpha", "A2", "--P", "1,2,3", "--bound", 1] for n in range(0, 4)]),
                 ("G(4) x A2, P in {1,2,3}, layouts {id,rev}, bound 1", [["--n", 4, "--alpha", "A2", "--P", "1,2,3", "--bound", 1]]),
+                ("G(4) x A2, P=2, all m! layouts for m<=4 / adjacent transpositions, bound 1", [["--n", 4, "--alpha", "A2", "--P", "2", "--bound", 1, "--layouts", 1]]),
                 ("G(4) x U, P in {4,5,7} (more ranks than vertices/candidates), bound 1", [["--n", 4, "--alpha", "U", "--P", "4,5,7", "--bound", 1]]),
-                ("G(5) x U, dim>=3, P=2, bound 1", [["--n", 5, "--alpha", "U", "--P", "2", "--bound", 1, "--min-dim", 3]])]
+                ("G(5) x U, P in {2,3}, bound 1", [["--n", 5, "--alpha", "U", "--P", "2,3", "--bound", 1]]),
+                ("G(5) x A2, dim >= 5, signed + isometric entry points, P in {3,4,5}, default layout/schedule, default reduce outcome",
+                 [["--n", 5, "--alpha", "A2", "--P", "3,4,5", "--bound", 0, "--min-dim", 5, "--outcome-bound", 0, "--variants", "signed_mpi,iso_tbb_mpi"]]),
+                ("K6 x A2 (32768 weightings; dense branch |S| >= n, ranks with empty slices), mcb_sva_signed_mpi, P=4, default outcome",
+                 [["--families", "K:6", "--alpha", "A2", "--P", "4", "--variants", "signed_mpi", "--bound", 0, "--wchunks", 64, "--outcome-bound", 0]])]
     else:
         plan = [("G(0..4) x A2, P in {1,2,3,4}, all layouts m<=4 / id,rev,adjacent transpositions, bound 2, both baton orders",
                  [["--n", n, "--alpha", "A2", "--P", "1,2,3,4", "--bound", 2, "--layouts", 1, "--baton-rev"] for n in range(0, 5)]),
                 ("G(4) x A3, P in {2,3}, bound 1", [["--n", 4, "--alpha", "A3", "--P", "2,3", "--bound", 1]]),
                 ("G(4) x U, P in {5,7}, bound 2", [["--n", 4, "--alpha", "U", "--P", "5,7", "--bound", 2]]),
-                ("G(5) x U, P in {2,3,4}, bound 1", [["--n", 5, "--alpha", "U", "--P", "2,3,4", "--bound", 1]]),
-                ("G(5) x A2, dim>=2, P in {2,3}, bound 1", [["--n", 5, "--alpha", "A2", "--P", "2,3", "--bound", 1, "--min-dim", 2]]),
-                ("K6, wheel:5, prism:3 unit, P in {2,3,5}, bound 1", [["--families", "K:6,wheel:5,prism:3,Kb:3:3", "--alpha", "U", "--P", "2,3,5", "--bound", 1]])]
+                ("G(5) x U, P in {2,3,4,5}, bound 1", [["--n", 5, "--alpha", "U", "--P", "2,3,4,5", "--bound", 1]]),
+                ("G(5) x A2, dim>=2, P in {2,3,4,5}, bound 1, at most one non-default reduce outcome", [["--n", 5, "--alpha", "A2", "--P", "2,3,4,5", "--bound", 1, "--min-dim", 2, "--outcome-bound", 1]]),
+                ("K6, K7, wheel:5, prism:3, K3,3 unit, P in {2,3,5,7}, bound 1", [["--families", "K:6,K:7,wheel:5,prism:3,Kb:3:3", "--alpha", "U", "--P", "2,3,5,7", "--bound", 1, "--outcome-bound", 1]]),
+                ("K6 x A2, all entry points, P in {4,5}, default schedule, at most one non-default reduce outcome",
+                 [["--families", "K:6", "--alpha", "A2", "--P", "4,5", "--bound", 0, "--wchunks", 64, "--outcome-bound", 1]]),
+                ("G(6) x A2, dim >= 8, mcb_sva_signed_mpi, P in {3,4,5}, default outcome", [["--n", 6, "--alpha", "A2", "--min-dim", 8, "--P", "3,4,5", "--variants", "signed_mpi", "--bound", 0, "--wchunks", 16, "--outcome-bound", 0]])]
     for bound, arglists in plan:
         for args in arglists:
             r = vlib.run_harness(ex, list(args) + ["--seed", vlib.seed(), "--deadline-s", int(c.remaining(20))])
